@@ -59,6 +59,8 @@ INJ = {
     "div0f": ("rawerr", "(1.5 / 0)"), "div0ff": ("rawerr", "(1 / 0.0)"),
     "mod0": ("rawerr", "(1 % 0)"), "idx": ("rawerr", "[1][5]"),
     "conv": ("rawerr", "int('x')"),
+    # a module whose top-level code raises a user value while it is loaded
+    "req_err": ("rawerrv", "(do require C05ErrA; 0 end)", "a"),
     # a failure that starts as a host exception inside a built-in
     "hostfail": ("rawerr", "('ab' * 1000000000000000000000)"),
     "return": ("return", L("R")),
@@ -66,13 +68,14 @@ INJ = {
 }
 INJ2 = ["err_a", "err_1", "return", "break", "err_list"]
 INJ1Q = ["err_a", "err_1f", "err_null", "undef", "callraise", "hostfail",
-         "div0f", "return",
+         "div0f", "req_err", "return",
          "break", "continue"]
 
 
 # depth-2 chains take every injection kind except the extra spellings of a
 # runtime error (those run on every depth-1 chain)
-INJ_CORE = [k for k in INJ if k not in ("div0ff", "mod0", "idx", "conv")]
+INJ_CORE = [k for k in INJ if k not in ("div0ff", "mod0", "idx", "conv",
+                                        "req_err")]
 
 CONTROL = ("return", "break", "continue")
 
@@ -180,6 +183,14 @@ class Builder:
         return ("seq", stmts)
 
 
+def write_modules():
+    import os
+    d = os.path.join(core.SCRATCH_HOME, ".ckl", "modules")
+    os.makedirs(d, exist_ok=True)
+    with open(os.path.join(d, "C05ErrA.ckl"), "w") as f:
+        f.write("def before = 1;\nerror 'a';\ndef after = 2;\n")
+
+
 def count_slots(frames):
     b = Builder(frames, [])
     b.program()
@@ -265,6 +276,7 @@ def explore(chunk):
 
 
 def replay(case, verbose=False):
+    write_modules()
     if "invariant" in case:
         got, logs = H.run_impl_value(case["src"])
         i = case["invariant"][0]
@@ -278,6 +290,7 @@ def replay(case, verbose=False):
 
 def main(tier, seed):
     t0 = time.time()
+    write_modules()
     sk1 = [(f,) for f in FRAMES]
     sk2 = [(a, b) for a in FRAMES for b in FRAMES]
     jobs = []
